@@ -20,6 +20,7 @@ from modcorpus import *
 import c03_util as U
 import c02 as C02
 import ext_layer            # extensibility layer (lib/ext_layer.py, notes/design/EXT.md)
+import prima_layer          # ENUMERATED / BIT STRING layer (lib/prima_layer.py, notes/design/PrimA.md)
 import c03_tagmap as TM
 import c03_oerpos as P
 import c03_regions as RG
@@ -434,6 +435,7 @@ def main(tier):
         ext_layer.run_c03(run, rng, tier)
     finally:
         ext_layer.build, ext_layer.model_encode = orig_build, orig_encode
+    prima_layer.run_c03(run, rng, tier)
     t0 = time.time()
     ext_oer_part(run, model, captured, Rng(run.seed * 1000003 + 33), tier)
     log("C03: ext oer sweep %.1fs" % (time.time() - t0))
